@@ -42,7 +42,8 @@ def handle (op : String) (a : Json) : Option R :=
   match op with
   | "c09.cols" => some do
       pure (Json.mkObj [("writer", jCols pdbWriterCols), ("reader", jCols pdbReaderCols),
-        ("width", jNat pdbWidth), ("cifNames", jList (cifNames.map Json.str))])
+        ("width", jNat pdbWidth), ("cifNames", jList (cifNames.map Json.str)),
+        ("cifReadNames", jList (cifReadNames.map jS))])
   | "c09.writePdb" => some do
       let atoms ← getAtoms a "atoms"
       if ¬ atoms.all pdbRepresentable then throw "Unrepresentable"
